@@ -178,7 +178,7 @@ def hook_arguments(rep: C.Report) -> None:
     AST facts on expand_recurse: template_fn(<f(name)>, M) and post_template_fn(<f(name)>, M, T) where M is the map the
     argument loop of the same call fills (`M[k] = ...`) and T is the variable holding the default expansion; the value
     post_template_fn returns replaces T only when it is not None.  If a fact fails, recording hooks are replayed."""
-    ob = rep.add(C.Ob("Ob6 template_fn / post_template_fn receive the call's name and final argument map; a non-None post_template_fn result replaces the expansion", "AST facts + replay", ["core.py:Wtp.expand.expand_recurse (hook call sites)"], "both hook call sites; replay: 5 calls with positional, named, duplicate and nested arguments"))
+    ob = rep.add(C.Ob("Ob6 template_fn / post_template_fn receive the call's name and final argument map; a non-None post_template_fn result replaces the expansion", "AST facts + replay", ["core.py:Wtp.expand.expand_recurse (hook call sites)"], "both hook call sites and every expansion of an argument name/value in the argument loop; replay: 5 calls with positional, named, duplicate and nested arguments, under full expansion and with only the outer template selected"))
     try:
         tree = ast.parse(open(os.path.join(C.SRC, "core.py")).read())
         fns = [f for q, f in AP.functions(tree) if q[-1] == "expand_recurse"]
@@ -193,6 +193,18 @@ def hook_arguments(rep: C.Report) -> None:
                     if isinstance(st, ast.Assign) and isinstance(st.targets[0], ast.Subscript) and isinstance(st.targets[0].value, ast.Name):
                         maps.add(st.targets[0].value.id)
         problems = []
+        # "final" argument map: inside the argument loop names and values are expanded completely, whatever the selection
+        n_full = 0
+        for lp in ast.walk(fn):
+            if isinstance(lp, ast.For) and "args[1:]" in ast.unparse(lp.iter) and any(isinstance(st, ast.Assign) and isinstance(st.targets[0], ast.Subscript) and isinstance(st.targets[0].value, ast.Name) and st.targets[0].value.id in maps for st in ast.walk(lp)):
+                for c in ast.walk(lp):
+                    if _name_call(c, {"expand_recurse"}):
+                        if len(c.args) == 3 and isinstance(c.args[2], ast.Constant) and c.args[2].value is True:
+                            n_full += 1
+                        else:
+                            problems.append(f"argument name/value at core.py:{c.lineno} is expanded with mode `{ast.unparse(c.args[2]) if len(c.args) > 2 else '?'}`, not completely")
+        if not n_full:
+            problems.append("no complete expansion of the argument values found in the argument loop")
         tf = [c for c in ast.walk(fn) if _name_call(c, {"template_fn"})]
         ptf = [c for c in ast.walk(fn) if _name_call(c, {"post_template_fn"})]
         for c in tf:
@@ -231,12 +243,17 @@ def hook_arguments(rep: C.Report) -> None:
                 post.append((n, dict(a), e))
                 return "<" + e + ">" if not e.startswith("[[:") else None
 
-            w.start_page("T")
-            out = w.expand(doc, template_fn=tfn, post_template_fn=pfn)
-            if seen != want_calls or out != want_out or [(n, a) for n, a, _ in post] != want_calls:
-                v = rep.violation(f"expand({doc!r}, template_fn=<records, returns None>, post_template_fn=<wraps the expansion in <>>)", f"template_fn saw {seen}, post_template_fn saw {[(n, a) for n, a, _ in post]}, result {out!r}; expected calls {want_calls} and result {want_out!r}", {"doc": doc})
-                ob.verdict = C.VIOLATED if v.known is None else C.KNOWN
-                return
+            # the same under full expansion and under a selection that names only the outermost template of the document
+            for kw, kwt in (({}, ""), ({"pre_expand": True, "templates_to_expand": {"t"}}, "pre_expand=True, templates_to_expand={'t'}, ")):
+                if kw and doc == "{{T%20x}}":
+                    continue  # a missing template is never selected
+                del seen[:], post[:]
+                w.start_page("T")
+                out = w.expand(doc, template_fn=tfn, post_template_fn=pfn, **kw)
+                if seen != want_calls or out != want_out or [(n, a) for n, a, _ in post] != want_calls:
+                    v = rep.violation(f"expand({doc!r}, {kwt}template_fn=<records, returns None>, post_template_fn=<wraps the expansion in <>>)", f"template_fn saw {seen}, post_template_fn saw {[(n, a) for n, a, _ in post]}, result {out!r}; expected calls {want_calls} and result {want_out!r}", {"doc": doc})
+                    ob.verdict = C.VIOLATED if v.known is None else C.KNOWN
+                    return
         ob.detail = f"{problems} but the recording hooks see the right names and maps -> inconclusive"
     except Exception as e:  # noqa: BLE001
         ob.detail += f"{type(e).__name__}: {e}"
